@@ -163,6 +163,44 @@ CLAIMED = {
              "the coordinator's delivery of the committed offset is covered by traces only.",
         technique="Lean 4 automaton invariants + exhaustive-interleaving trace validation",
     ),
+    "C04": dict(
+        text="Lean 4 proofs over every history accepted by an executable acceptor of consumer-group histories (ownership "
+             "epochs per member incarnation and partition, positions, committed-offset store; any visibility predicate). "
+             "Every OffsetCommit entry from any source, stored or refused, lies at or after a start offset the member was "
+             "given, with every visible record in between already handed to the application by that member. Every stored "
+             "commit and every offset a new owner is started at has all visible records below it delivered by earlier "
+             "owners, by induction over ownership epochs, wherever members were killed, stopped or rebalanced. A member "
+             "delivers only at or above the committed offset (or the reset position, only after 'no committed offset') it "
+             "was started at, skipping nothing visible. Tie: real AIOKafkaConsumer group members run on the simulator "
+             "(kills, stops, joins, auto-commit timers racing deliveries, commit(), failing commit replies, coordinator "
+             "failover, subscription and partition-count changes, transactional producers); the recorded history must be "
+             "accepted by the Lean acceptor with the simulated logs as visibility ground truth, and the property is also "
+             "evaluated directly on the observations.",
+        design="3/C04",
+        note="trusted: Lean kernel (+propext, Classical.choice, Quot.sound); harness/sim logs and offset store (re-derived "
+             "by Env guards, exit 2 on disagreement); hooks and token translation in harness/checks/group_common.py; "
+             "auto_offset_reset=earliest with an unmoved log start, no seek(); crash points, fault placements and "
+             "schedules of the implementation are sampled; liveness is not claimed; the isolation filter is C08's.",
+        technique="Lean 4 trace-indexed invariant proofs over an executable acceptor + trace validation of real group members on the simulator",
+    ),
+    "C05": dict(
+        text="Lean 4 proofs over every history accepted by the member/coordinator acceptor (delivery gate, revoke-done "
+             "flag, pending SyncGroup result, per-epoch fetches; coordinator join barrier and once-per-generation "
+             "assignment). Adopted partitions equal what the leader's accepted SyncGroup gave the member, and assignment() "
+             "equals the latest adoption. Adoptions of different members in one generation are disjoint and lie within "
+             "the topics each member advertised when joining. After a revoke callback starts, or the subscription "
+             "changes, nothing is delivered until a later adoption containing the partition. A delivered record comes from "
+             "a Fetch issued and answered after the latest adoption or subscription change. Every member of a generation "
+             "finished its revoke callback before the coordinator formed it, hence before any assign callback for it. "
+             "Tie: the recorded history of real AIOKafkaConsumer members (1-4 slots, restarts, three assignors, pattern "
+             "and differing subscriptions, kills, faults, failover) must be accepted; the clauses are also evaluated "
+             "directly on the observations.",
+        design="3/C05",
+        note="trusted: Lean kernel (+3 standard axioms); simulator coordinator semantics (re-derived by Env guards); hooks "
+             "and translation; validity of the leader's assignment is checked on every history rather than proved here "
+             "(C14); one assignor per member; schedules sampled.",
+        technique="Lean 4 trace-indexed invariant proofs over an executable acceptor + trace validation of real group members on the simulator",
+    ),
 }
 
 NOT_YET = {}
